@@ -57,6 +57,18 @@ def loss_matrix_case(npairs, prior_kind):
     S.graphical_lasso = solver
     S.components_from_metric = lambda M, *a, **k: np.eye(d)
     prior = 'identity' if prior_kind == 'identity' else np.eye(d) * 3.0
+    from symx.npproxy import NP
+    old_eigh = NP.linalg._impl.get('eigh')
+    if ctx.symbolic:
+      # cut point: the spectrum of the solver input only shapes the solver's starting point (psd_shift case)
+      ncall = [0]
+
+      def cut_eigh(A, *a, **k):
+        ncall[0] += 1
+        if ncall[0] == 1:
+          return ctx.fresh('sw', (d,)), ctx.fresh('sV', (d, d))
+        return old_eigh(A, *a, **k)
+      NP.linalg._impl['eigh'] = cut_eigh
     try:
       est = SDML(balance_param=bal, sparsity_param=sp, prior=prior, random_state=3)
       with warnings.catch_warnings():
@@ -64,6 +76,8 @@ def loss_matrix_case(npairs, prior_kind):
         est._fit(P, np.array(yv))
     finally:
       S._initialize_metric_mahalanobis, S.graphical_lasso, S.components_from_metric = old_i, old_g, old_c
+      if ctx.symbolic:
+        NP.linalg._impl['eigh'] = old_eigh
     ctx.require('solver_called_once', ctx.cond(len(solver.calls) == 1))
     emp, a, k = solver.calls[0]
     for i in range(d):
